@@ -46,6 +46,8 @@ func init() {
 		if *stress {
 			problems = append(problems, conc.OverwriteStress(*seed, 400*time.Millisecond)...)
 			problems = append(problems, conc.FirstUseStress(*seed, *rounds)...)
+			problems = append(problems, conc.DenyStress(*seed, *rounds/4+200)...)
+			problems = append(problems, conc.SharedRemoveStress(*seed, *rounds/10+100)...)
 		}
 		if problems == nil {
 			problems = []conc.Problem{}
